@@ -28,7 +28,7 @@ impl Property for C14 {
         }
     }
     fn rule(&self) -> &'static str {
-        "one case = an arrangement of 2-4 project directories (names drawn from a small pool so that clashes are frequent, missing or syntactically invalid names, imports forming trees, diamonds, cycles and self-imports, import keys that do or do not match the imported project's name, unknown keys) + one request, executed under 8 different seeded hash orders (std RandomState keys come from the interposed getrandom) with the FIFO schedule. Oracle: no run panics or aborts; the verdict (accepted / rejected before anything runs) and the multiset of scripts started are identical for all 8 hash orders. distinct_nontrivial = distinct (arrangement hash) among cases that load at least two projects"
+        "one case = an arrangement of 2-4 project directories (names drawn from a small pool so that clashes are frequent, missing or syntactically invalid names, imports forming trees, diamonds, cycles and self-imports, import keys that do or do not match the imported project's name, unknown keys) + one request, executed under 8 different seeded hash orders (std RandomState keys come from the interposed getrandom) with the FIFO schedule. A few arrangements carry one document the documented schema excludes (empty target body, two kinds at once, unknown keys, invalid target name), which must be rejected. Oracle: no run panics or aborts; the verdict (accepted / rejected before anything runs) and the multiset of scripts started are identical for all 8 hash orders. distinct_nontrivial = distinct (arrangement hash) among cases that load at least two projects"
     }
     fn assumptions(&self) -> Vec<&'static str> {
         vec!["only the schedule-free determinism and no-abort half of C14 is decided here; totality over arbitrary byte strings and strictness of the schema are input-space claims left to fuzzing (DESIGN.md §7 C14)"]
@@ -79,6 +79,7 @@ impl Property for C14 {
             imports[0].push((names[j].clone().unwrap_or_else(|| "lib".into()), j));
         }
         let mut projects = vec![];
+        let mut invalid: Option<String> = None;
         for i in 0..k {
             let mut y = String::new();
             if let Some(n) = &names[i] {
@@ -95,6 +96,20 @@ impl Property for C14 {
             }
             y.push_str("targets:\n");
             y.push_str(&format!("  t:\n    build: \"@sim id={}.t\"\n", dirs[i]));
+            if i <= 1 && invalid.is_none() && rng.chance(8) {
+                // a document that the documented schema excludes: must be rejected, whatever the hash order
+                let (what, text) = match rng.below(7) {
+                    0 => ("empty-target", "  bad: {}\n".to_string()),
+                    1 => ("two-kinds", "  bad:\n    build: \"@sim id=x.bad\"\n    service: \"@sim id=x.bad svc\"\n".to_string()),
+                    2 => ("unknown-target-key", "  bad:\n    build: \"@sim id=x.bad\"\n    colour: red\n".to_string()),
+                    3 => ("dependencies-not-a-list", "  bad:\n    dependencies: t\n".to_string()),
+                    4 => ("aggregate-with-output", "  bad:\n    dependencies: [t]\n    output: [{paths: [x]}]\n".to_string()),
+                    5 => ("invalid-target-name", "  \"-bad\":\n    build: \"@sim id=x.bad\"\n".to_string()),
+                    _ => ("unknown-resource-key", "  bad:\n    build: \"@sim id=x.bad\"\n    input: [{paths: [x], colour: red}]\n".to_string()),
+                };
+                y.push_str(&text);
+                invalid = Some(format!("{}@{}", what, dirs[i]));
+            }
             if i == 0 {
                 // top depends on one target of each distinct imported name
                 let mut deps: Vec<String> = vec![];
@@ -119,7 +134,14 @@ impl Property for C14 {
                 }
             }
         };
-        let mut sc = Scenario { focus: None, label: format!("config-{}proj", k), projects, files: vec![], vars: BTreeMap::new(), steps: vec![] };
+        // an invalid document only counts if its project is certainly loaded: p0 always is, pa
+        // when the root imports it first-hand
+        let invalid = invalid.filter(|w| w.ends_with("@p0") || imports[0].iter().any(|x| x.1 == 1));
+        let label = match &invalid {
+            Some(w) => format!("config-{}proj-invalid:{}", k, w),
+            None => format!("config-{}proj", k),
+        };
+        let mut sc = Scenario { focus: None, label, projects, files: vec![], vars: BTreeMap::new(), steps: vec![] };
         for h in 0..8u64 {
             sc.steps.push(Step::Invoke(Invocation { entry: 0, args: vec![request.clone()], hash_seed: 1 + h * 7919 + rng.below(1000) as u64, plan: Plan { seed: 1, ..Default::default() }, side: 0 }));
         }
@@ -168,6 +190,15 @@ impl Property for C14 {
         }
         if sc.projects.len() >= 2 {
             stats.nontrivial.insert(arrangement);
+        }
+        if let Some(w) = sc.label.split("-invalid:").nth(1) {
+            if let Some(s) = seen.iter().find(|s| s.1 == "accepted") {
+                return viol(
+                    "invalid-document-accepted",
+                    format!("what={}", w.split('@').next().unwrap_or("")),
+                    format!("a project file that the documented schema excludes ({}) was accepted (hash seed {}) and scripts {:?} ran", w, s.0, s.2),
+                );
+            }
         }
         let first = seen.first()?.clone();
         for s in &seen[1..] {
